@@ -30,6 +30,7 @@ def fpi (s : Stack) : List (Tid × TaskSt) × List (Nat × Nat) × Nat × Option
 @[simp] theorem fpi_with_draws (s : Stack) (x : List Nat) : fpi { s with draws := x } = fpi s := rfl
 @[simp] theorem fpi_with_storeLog (s : Stack) (x : List (Bool × SvcKey × Addr)) : fpi { s with storeLog := x } = fpi s := rfl
 @[simp] theorem fpi_with_refreshLog (s : Stack) (x : List (Addr × SvcKey × Nat × Nat)) : fpi { s with refreshLog := x } = fpi s := rfl
+@[simp] theorem fpi_with_armLog (s : Stack) (x : List (Cb × Nat × Nat)) : fpi { s with armLog := x } = fpi s := rfl
 @[simp] theorem fpi_with_found_refreshLog (s : Stack) (x : TStore SvcKey) (y : List (Addr × SvcKey × Nat × Nat)) : fpi { s with found := x, refreshLog := y } = fpi s := rfl
 @[simp] theorem fpi_with_found (s : Stack) (x : TStore SvcKey) : fpi { s with found := x } = fpi s := rfl
 @[simp] theorem fpi_with_found_storeLog (s : Stack) (x : TStore SvcKey) (y : List (Bool × SvcKey × Addr)) : fpi { s with found := x, storeLog := y } = fpi s := rfl
